@@ -204,20 +204,37 @@ func (s *handler) handleReader(ctx context.Context, r io.Reader, w io.Writer, rp
 			return
 		}
 
-		_, _ = w.Write([]byte("[")) // todo consider handling this error
-		for idx, req := range reqs {
+		// Responses are collected per request so that separators are only
+		// written between actual responses: notifications produce none, and a
+		// request with an invalid ID produces an error response without cutting
+		// the batch short.
+		wrote := false
+		for _, req := range reqs {
+			var respBuf bytes.Buffer
+			bwf := func(cb func(io.Writer)) {
+				cb(&respBuf)
+			}
+
 			if req.ID, err = normalizeID(req.ID); err != nil {
-				rpcError(wf, &req, rpcParseError, xerrors.Errorf("failed to parse ID: %w", err))
-				return
+				rpcError(bwf, &req, rpcParseError, xerrors.Errorf("failed to parse ID: %w", err))
+			} else {
+				s.handle(ctx, req, bwf, rpcError, func(bool) {}, nil)
 			}
 
-			s.handle(ctx, req, wf, rpcError, func(bool) {}, nil)
-
-			if idx != len(reqs)-1 {
+			if respBuf.Len() == 0 {
+				continue
+			}
+			if wrote {
 				_, _ = w.Write([]byte(",")) // todo consider handling this error
+			} else {
+				_, _ = w.Write([]byte("[")) // todo consider handling this error
+				wrote = true
 			}
+			_, _ = w.Write(respBuf.Bytes()) // todo consider handling this error
 		}
-		_, _ = w.Write([]byte("]")) // todo consider handling this error
+		if wrote {
+			_, _ = w.Write([]byte("]")) // todo consider handling this error
+		}
 	} else {
 		var req request
 		if err := json.NewDecoder(bufferedRequest).Decode(&req); err != nil {
